@@ -118,6 +118,9 @@ def species_pool(natural):
         A = list(iso)[len(iso) // 2]
         if Z >= 3:
             pool.append(el + '{' + A + '-3}')
+        if Z >= 12:
+            pool.append(el + '{+12}' if has_nat or not natural else el + '{' + A + '+12}')   # charge numbers with two digits
+            pool.append(el + '{' + A + '-10}')
         pool.append(el + '{' + A + '+}')
     pool += ['[p]', '[n]', '[e]', 'D', 'T']
     return pool
